@@ -288,6 +288,19 @@ def explicit_completion_machines():
                      ("process", 9, 7, val, []), ("process", 6, 8, val, []), ("process", 8, 9, val, []), ("process", 5, 10, val, [])])
     return [("explicit_completion", md, opss)]
 
+def completion_ortho_defer_machines():
+    """a completion transition next to an orthogonal region that defers the very event: region 0 takes A1 -e4-> A2 and A2
+    has a completion row to A3; region 1's active state B1 defers e4 (result of the step: handled and deferred at once).
+    The completion transition fires right after A2 was entered, before the next event; the stored e4 is offered again
+    when B1 is left"""
+    root = machine([state(zone=0), state(zone=0), state(zone=0), state(zone=1, defers=[4]), state(zone=1)], [0, 3],
+                   [row(10, 0, 4, 1, act="call"), row(11, 1, "none", 2, act="call"), row(12, 2, 6, 0, act="call"),
+                    row(13, 3, 5, 4, act="call"), row(14, 4, 4, "none", act="call"), row(15, 4, 6, 3, act="call")])
+    md = mdef(root, 3)
+    opss = [[("start", [], []), ("process", 4, 1, [], []), ("process", 5, 2, [], []), ("process", 6, 3, [], []),
+             ("process", 4, 4, [], []), ("process", 4, 5, [], []), ("process", 5, 6, [], [])]]
+    return [("completion_ortho_defer", md, opss)]
+
 def flag_machines():
     """a flag carried only by a substate of a submachine; the enclosing machine leaves the submachine by a row with an
     action into a flagged simple state: what is_flag_active answers inside the action and the target's entry must follow
@@ -459,7 +472,7 @@ def rowkind_machines():
 def main():
     os.makedirs(os.path.join(VERIF, "corpus"), exist_ok=True)
     n = 0
-    for item in fwd_machines() + ortho_machines() + defer_code_machines() + defer_ortho_reject_machines() + defer_action_machines() + base_event_machines() + block_machines() + pseudo_machines() + fork_machines() + explicit_completion_machines() + flag_machines() + throw_machines() + throw_in_pool_machines() + throw_nested_machines() + copy_history_machines() + save_pseudo_machines() + rowkind_machines():
+    for item in fwd_machines() + ortho_machines() + defer_code_machines() + defer_ortho_reject_machines() + defer_action_machines() + base_event_machines() + block_machines() + pseudo_machines() + fork_machines() + explicit_completion_machines() + completion_ortho_defer_machines() + flag_machines() + throw_machines() + throw_in_pool_machines() + throw_nested_machines() + copy_history_machines() + save_pseudo_machines() + rowkind_machines():
         name, md, opss = item[:3]
         save(name, md, opss, cfgs=item[3] if len(item) > 3 else None)
         n += 1
